@@ -1366,6 +1366,7 @@ impl<'a> Binder<'a> {
                         ast::SelectItemQualifiedWildcardKind::ObjectName(o) => o.table_name(),
                         other => other.to_string(),
                     };
+                    let before = exprs.len();
                     for field in schema.fields() {
                         if field.relation.as_deref() == Some(&table_name) {
                             exprs.push(Expr::Column(Column {
@@ -1374,6 +1375,11 @@ impl<'a> Binder<'a> {
                             }));
                             fields.push(field.clone());
                         }
+                    }
+                    if exprs.len() == before {
+                        return Err(QueryError::Bind(format!(
+                            "{table_name}.*: no table or alias named '{table_name}' in FROM"
+                        )));
                     }
                 }
                 SelectItem::ExprWithAliases { .. } => {
@@ -1448,6 +1454,7 @@ impl<'a> Binder<'a> {
                         ast::SelectItemQualifiedWildcardKind::ObjectName(o) => o.table_name(),
                         other => other.to_string(),
                     };
+                    let before = exprs.len();
                     for field in agg_schema.fields() {
                         if field.relation.as_deref() == Some(&table_name) {
                             exprs.push(Expr::Column(Column {
@@ -1456,6 +1463,11 @@ impl<'a> Binder<'a> {
                             }));
                             fields.push(field.clone());
                         }
+                    }
+                    if exprs.len() == before {
+                        return Err(QueryError::Bind(format!(
+                            "{table_name}.*: no grouped column of a table or alias named '{table_name}'"
+                        )));
                     }
                 }
                 SelectItem::ExprWithAliases { .. } => {
